@@ -60,6 +60,9 @@ def parseFilter (s : String) : Option Filter :=
       match tok.splitOn ":" with
       | ["all"] => some (Filter.all :: stack)
       | ["t", h] => (hexStr? h).map (fun w => Filter.term w :: stack)
+      | ["tc", h] => (hexStr? h).bind (fun w => if w.isEmpty || w.contains ' ' then none else some (Filter.phrase true w :: stack))
+      | ["p", h] => (hexStr? h).bind (fun w => if w.isEmpty then none else some (Filter.phrase false w :: stack))
+      | ["pc", h] => (hexStr? h).bind (fun w => if w.isEmpty then none else some (Filter.phrase true w :: stack))
       | ["c", f, op, l] => match parseOp op, parseLit l with
         | some op, some l => some (Filter.cmp f op l :: stack)
         | _, _ => none
